@@ -12,6 +12,7 @@ import (
 	"sort"
 	"strings"
 	"sync"
+	"sync/atomic"
 	"testing"
 	"time"
 
@@ -261,7 +262,9 @@ func TestVerif_C27_Watcher(t *testing.T) {
 	run.Rule("2-3 real fileConfigs with real ConfigWatchers on shared temp files and a driver-delivered pubsub; per step the files get one of {unchanged, restore, valid, deprecated-setting (warning), invalid, unreadable} and a PRNG-chosen set of concurrent triggers fires (timer tick on some nodes, external announcements on cfg_update, ConfigReloadInterval elapsed or not); announcements published by the watchers are delivered concurrently until the bus is empty; non-trivial = history in which a pubsub-triggered reload applied a change and some change was refused; distinct = distinct (kinds, trigger set) step sequences")
 	run.Assume("monitor()'s tick is `cw.Config.Reload()`; the real ticker (wall clock, not injectable) is parked with ConfigReloadInterval 24h and the tick is issued by the driver")
 	run.Assume("NewConfig(opts, version) on the same files in the same step is what 'startup would accept' means")
-	run.Cases("cluster", run.N(12, 70), func(i int, rng *verifkit.Rand) { c27wHistory(t, run, rng) })
+	run.Cases("cluster", run.N(10, 70), func(i int, rng *verifkit.Rand) { c27wHistory(t, run, rng) })
+	run.Assume("real-monitor cases: monitor() runs on the real clock (time.NewTicker, the injected Clock is not used) with ConfigReloadInterval 40ms; progress is counted in completed Reload attempts and in ticks of a control ticker of the same interval in the same process, never in seconds; every wall-clock bound ends in inconclusive")
+	run.Cases("real-monitor", run.N(5, 40), func(i int, rng *verifkit.Rand) { c27wRealMonitor(t, run, rng) })
 }
 
 func c27wWrite(t *testing.T, path string, content []byte) {
@@ -582,4 +585,239 @@ func containsInt(xs []int, x int) bool {
 		}
 	}
 	return false
+}
+
+// ---- the REAL monitor() loop -------------------------------------------------------------
+
+// c27wCounting wraps the Config handed to the ConfigWatcher and counts the reloads the
+// monitor loop performs (counted when Reload returns).
+type c27wCounting struct {
+	config.Config
+	attempts atomic.Int64
+	failures atomic.Int64
+}
+
+func (c *c27wCounting) Reload(opts ...config.ReloadedConfigDataOption) error {
+	err := c.Config.Reload(opts...)
+	if err != nil {
+		c.failures.Add(1)
+	}
+	c.attempts.Add(1)
+	return err
+}
+
+const c27wInterval = 40 * time.Millisecond
+
+type c27wPhase struct {
+	Phase            string `json:"phase"`
+	Kind             string `json:"content"`
+	AttemptsBefore   int64  `json:"reload_attempts_before"`
+	AttemptsAfter    int64  `json:"reload_attempts_after"`
+	FailuresAfter    int64  `json:"failed_reloads_total"`
+	ControlTicks     int    `json:"control_ticks_waited"`
+	Applied          bool   `json:"applied"`
+	ListenerCalls    int    `json:"listener_calls_total"`
+	ExpectedPrefix   string `json:"expected_dataset_prefix,omitempty"`
+	EffectivePrefix  string `json:"effective_dataset_prefix,omitempty"`
+	LastLoggedReload string `json:"last_logged_error,omitempty"`
+}
+
+// c27wRealMonitor starts a real ConfigWatcher whose monitor() loop runs on a 40ms
+// interval and walks it through: valid -> (changed)? -> rejected content (1-2 times) ->
+// repaired AND changed content, which the timer-driven reload must apply. "Never fires
+// again" is decided as bounded progress: after the repair, 25 ticks of a control ticker
+// with the same interval pass without the loop completing a single Reload attempt.
+func c27wRealMonitor(t *testing.T, run *verifkit.Run, rng *verifkit.Rand) {
+	dir, err := os.MkdirTemp(t.TempDir(), "m")
+	if err != nil {
+		t.Fatal(err)
+	}
+	cfgPath, rulesPath := filepath.Join(dir, "config.yaml"), filepath.Join(dir, "rules.yaml")
+	next := rng.Range(1, 500)
+	fresh := func() int { next++; return next }
+	mkCfg := func(k int) []byte {
+		return []byte(strings.Replace(c27wCfg(k, ""), "ConfigReloadInterval: 24h", "ConfigReloadInterval: "+c27wInterval.String(), 1))
+	}
+	k := fresh()
+	goodRules := []byte(c27wRules(fresh()))
+	c27wWrite(t, cfgPath, mkCfg(k))
+	c27wWrite(t, rulesPath, goodRules)
+	o, err := config.NewCmdEnvOptions([]string{"--config", cfgPath, "--rules_config", rulesPath})
+	if err != nil {
+		t.Fatal(err)
+	}
+	inner, err := config.NewConfig(o)
+	if inner == nil {
+		t.Fatalf("c27w: real-monitor: initial NewConfig: %v", err)
+	}
+	cc := &c27wCounting{Config: inner}
+	log := &logger.MockLogger{}
+	cw := &ConfigWatcher{Config: cc, PubSub: &c27bus{}, Logger: log}
+	var lmu sync.Mutex
+	calls := 0
+	inner.RegisterReloadCallback(func(string, string) { lmu.Lock(); calls++; lmu.Unlock() })
+	nCalls := func() int { lmu.Lock(); defer lmu.Unlock(); return calls }
+	if err := cw.Start(); err != nil {
+		t.Fatal(err)
+	}
+	stopped := false
+	stop := func() {
+		if !stopped {
+			stopped = true
+			cw.Stop()
+		}
+	}
+	ctrl := time.NewTicker(c27wInterval)
+	defer ctrl.Stop()
+	hardBound := time.After(90 * time.Second)
+	// waitFor polls cond on every control tick; gives up (false) after maxTicks ticks.
+	waitFor := func(maxTicks int, cond func(ticks int) bool) (ticks int, ok bool, inconclusive bool) {
+		for {
+			if cond(ticks) {
+				return ticks, true, false
+			}
+			if ticks >= maxTicks {
+				return ticks, false, false
+			}
+			select {
+			case <-ctrl.C:
+				ticks++
+			case <-hardBound:
+				return ticks, false, true
+			}
+		}
+	}
+	var hist []c27wPhase
+	var abstract strings.Builder
+	note := func(p c27wPhase) {
+		p.AttemptsAfter, p.FailuresAfter, p.ListenerCalls = cc.attempts.Load(), cc.failures.Load(), nCalls()
+		p.EffectivePrefix = inner.GetDatasetPrefix()
+		if n := len(log.Events); n > 0 {
+			if s, ok := log.Events[n-1].Fields["error"].(string); ok {
+				if len(s) > 140 {
+					s = s[:140] + "…"
+				}
+				p.LastLoggedReload = strings.ReplaceAll(s, dir, "<dir>")
+			}
+		}
+		hist = append(hist, p)
+		fmt.Fprintf(&abstract, "%s/%s;", p.Phase, p.Kind)
+	}
+	witness := func() any {
+		return map[string]any{"interval": c27wInterval.String(), "phases": hist}
+	}
+
+	// the loop is alive: it completes reload attempts on unchanged content
+	a0 := cc.attempts.Load()
+	ticks, ok, inc := waitFor(2000, func(int) bool { return cc.attempts.Load() >= a0+2 })
+	note(c27wPhase{Phase: "warm-up", Kind: "unchanged", AttemptsBefore: a0, ControlTicks: ticks})
+	if inc || !ok {
+		// the wall-clock loop did not even start ticking within the bound: say nothing
+		stop()
+		run.Inconclusive("real-monitor: no timer-driven reload attempt observed during warm-up")
+		return
+	}
+	defer stop() // the loop has run, so cw.done is set
+
+	expectedCalls := 0
+	// apply expects the timer to pick up an acceptable change; returns false to abort the case
+	apply := func(phase string, afterRejected bool) bool {
+		k = fresh()
+		want := fmt.Sprintf("p%d", k)
+		before := cc.attempts.Load()
+		c27wWrite(t, cfgPath, mkCfg(k))
+		if afterRejected {
+			c27wWrite(t, rulesPath, goodRules)
+		}
+		expectedCalls++
+		applied := func() bool { return inner.GetDatasetPrefix() == want && nCalls() >= expectedCalls }
+		// wait, counted in control ticks, until the change is applied, or the loop has
+		// completed 4 attempts without applying it, or 25 ticks passed without any attempt
+		const K = 25
+		ticks, _, inc := waitFor(4000, func(ticks int) bool {
+			return applied() || cc.attempts.Load() >= before+4 || (ticks >= K && cc.attempts.Load() == before)
+		})
+		if inc {
+			note(c27wPhase{Phase: phase, Kind: "valid change", AttemptsBefore: before, ControlTicks: ticks, ExpectedPrefix: want})
+			run.Inconclusive("real-monitor: hard wall-clock bound reached")
+			return false
+		}
+		verdict := "not-applied"
+		if cc.attempts.Load() == before {
+			verdict = "not-attempted"
+		}
+		note(c27wPhase{Phase: phase, Kind: "valid change", AttemptsBefore: before, ControlTicks: ticks, Applied: applied(), ExpectedPrefix: want})
+		switch {
+		case applied():
+			run.Count("real_monitor_changes_applied_by_timer", 1)
+			if afterRejected {
+				run.Count("real_monitor_changes_applied_after_rejected_reload", 1)
+			}
+			return true
+		case verdict == "not-attempted":
+			sig := "C27/watcher/timer-reload-not-attempted"
+			if afterRejected {
+				sig = "C27/watcher/timer-reload-not-attempted-after-rejected-reload"
+			}
+			run.Violation(sig, fmt.Sprintf("the config was changed to acceptable content; during %d control ticks of the %s reload interval the monitor loop completed no reload attempt (it completed %d before), the change is not applied", ticks, c27wInterval, before), witness())
+		default:
+			run.Violation("C27/Reload/acceptable-change-not-applied",
+				fmt.Sprintf("the timer-driven monitor completed %d reload attempts after the change, nothing was applied [via real monitor loop]", cc.attempts.Load()-before), witness())
+		}
+		return false
+	}
+
+	if rng.Chance(0.5) {
+		if !apply("change before any rejection", false) {
+			return
+		}
+	}
+	for n := rng.Range(1, 2); n > 0; n-- {
+		kind := verifkit.Pick(rng, "config invalid", "config unparsable", "config unreadable", "rules invalid", "rules unreadable")
+		before, f0 := cc.attempts.Load(), cc.failures.Load()
+		switch kind {
+		case "config invalid":
+			c27wWrite(t, cfgPath, append(mkCfg(fresh()), []byte(fmt.Sprintf(c27wCfgInvalid[0], 1))...))
+		case "config unparsable":
+			c27wWrite(t, cfgPath, []byte("General: [unclosed\n"))
+		case "config unreadable":
+			os.Remove(cfgPath)
+		case "rules invalid":
+			c27wWrite(t, rulesPath, []byte(fmt.Sprintf(c27wRulesInvalid[0], 7)))
+		case "rules unreadable":
+			os.Remove(rulesPath)
+		}
+		ticks, ok, inc := waitFor(4000, func(ticks int) bool {
+			return cc.failures.Load() > f0 || (ticks >= 25 && cc.attempts.Load() == before)
+		})
+		note(c27wPhase{Phase: "rejected content", Kind: kind, AttemptsBefore: before, ControlTicks: ticks})
+		if !inc && ok && cc.failures.Load() == f0 {
+			// no attempt at all for 25 ticks: go on to the repair, which decides
+			run.Count("real_monitor_no_attempt_while_content_rejected", 1)
+			break
+		}
+		if inc || !ok {
+			run.Inconclusive("real-monitor: no rejected timer-driven reload observed")
+			return
+		}
+		run.Count("real_monitor_rejected_reloads_observed", 1)
+		if nCalls() != expectedCalls {
+			run.Violation("C27/Reload/listener-notified-without-applied-change",
+				fmt.Sprintf("%d listener calls, %d changes applied so far [via real monitor loop]", nCalls(), expectedCalls), witness())
+			return
+		}
+	}
+	if !apply("repaired and changed content", true) {
+		return
+	}
+	// a few more intervals: no further notification for the same change
+	waitFor(8, func(int) bool { return false })
+	if n := nCalls(); n != expectedCalls {
+		note(c27wPhase{Phase: "quiet", Kind: "unchanged"})
+		run.Violation("C27/Reload/change-applied-more-than-once",
+			fmt.Sprintf("%d listener calls for %d applied changes [via real monitor loop]", n, expectedCalls), witness())
+		return
+	}
+	run.Nontrivial("real-monitor/" + abstract.String())
+	run.Sample(map[string]any{"real_monitor_phases": hist})
 }
